@@ -78,6 +78,25 @@ _SX_PARSE = {}
 SX_LONG = {}  # digest -> abbreviated definition text
 
 
+def known_items(it, limit=6):
+    """The items an iteration yields when the iterable is a short sequence of known elements, else None."""
+    if it is None:
+        return None
+    if it.ty in ('tuple', 'list') and it.elts is not None and 0 < len(it.elts) <= limit and not it.maybe_empty and it.elem is None:
+        return list(it.elts)
+    if it.ty == 'enumerate' and it.inner is not None:
+        inner = known_items(it.inner, limit)
+        if inner is None:
+            return None
+        return [AV(ty='tuple', elts=[const(k), e]) for k, e in enumerate(inner)]
+    if it.ty == 'zip' and it.inners:
+        cols = [known_items(x, limit) for x in it.inners]
+        if any(c is None for c in cols) or len({len(c) for c in cols}) != 1:
+            return None
+        return [AV(ty='tuple', elts=list(row)) for row in zip(*cols)]
+    return None
+
+
 def _strip_sx(item):
     """Items produced by an iteration do not stand for the expression that built the container's elements."""
     if item is None:
@@ -723,6 +742,27 @@ class Interp:
 
     def x_For(self, s, frame, st):
         it = self.eval(s.iter, frame, st)
+        items = known_items(it)
+        if items is not None and not s.orelse:
+            # a short sequence of known elements (per-axis tuples, enumerate / zip of them): the body runs once per element
+            frame.loops.append({'breaks': [], 'continues': []})
+            cur = st
+            for item in items:
+                if cur is None:
+                    break
+                body_st = cur.copy()
+                self.assign(s.target, _strip_sx(item), frame, body_st, s)
+                end = self.exec_block(s.body, frame, body_st)
+                ctx = frame.loops[-1]
+                for c in ctx['continues']:
+                    end = join_state(end, c)
+                ctx['continues'] = []
+                cur = end
+            ctx = frame.loops.pop()
+            out = cur
+            for b in ctx['breaks']:
+                out = join_state(out, b)
+            return out
         frame.loops.append({'breaks': [], 'continues': []})
         head = st  # state at loop head (before binding the target)
         skip = st.copy()  # zero iterations
@@ -1223,12 +1263,35 @@ class Interp:
         st.heap = cst.heap
         return res, cst, maybe_empty
 
+    def _comp_unrolled(self, n, frame, st):
+        """Elements of a one-generator comprehension over a short known sequence, evaluated one by one; None if not applicable."""
+        if len(n.generators) != 1 or n.generators[0].ifs:
+            return None
+        g = n.generators[0]
+        it = self.eval(g.iter, frame, st)
+        items = known_items(it)
+        if items is None:
+            return None
+        out = []
+        for item in items:
+            cst = st.copy()
+            self.assign(g.target, _strip_sx(item), frame, cst)
+            out.append(self.eval(n.elt, frame, cst))
+            st.heap = cst.heap
+        return out
+
     def e_ListComp(self, n, frame, st):
+        elts = self._comp_unrolled(n, frame, st)
+        if elts is not None:
+            return self.model.make_seq(self, 'list', elts, n).w(fresh=True, comp_over=self.values.get(id(n.generators[0].iter)))
         (elt,), cst, me = self._comp(n, frame, st, [n.elt])
         first_iter = self.values.get(id(n.generators[0].iter))
         return self.model.make_comp(self, 'list', elt, first_iter, n, me)
 
     def e_GeneratorExp(self, n, frame, st):
+        elts = self._comp_unrolled(n, frame, st)
+        if elts is not None:
+            return self.model.make_seq(self, 'tuple', elts, n).w(ty='generator', fresh=True, comp_over=self.values.get(id(n.generators[0].iter)))
         (elt,), cst, me = self._comp(n, frame, st, [n.elt])
         first_iter = self.values.get(id(n.generators[0].iter))
         return self.model.make_comp(self, 'generator', elt, first_iter, n, me)
